@@ -35,6 +35,7 @@ DECLS = {
     "simple": ({"n": "IntType", "s": "StringType"}, None),
     "dotted": ({"a.b": "IntType", "a.c": "IntType"}, None),
     "package": ({"p.x": "IntType"}, "p"),
+    "package-bare": (None, "p"),  # a package without any declaration: which level a name resolves at depends on the call's bindings only
     # names declared as plain leaves that bindings later reach through (r.kind bound under a leaf-declared r), next to a dotted declaration
     "leaf": ({"r": "MapType", "n": "IntType", "a.b": "IntType"}, None),
 }
@@ -251,7 +252,7 @@ def host_flag(kinds):
     return "override" if "override" in kinds else ("host" in kinds)
 
 
-AFFINITY = {"leaf": "leafdot", "dotted": "dotted", "package": "package", "simple": "plain"}
+AFFINITY = {"leaf": "leafdot", "dotted": "dotted", "package": "package", "package-bare": "package", "simple": "plain"}
 
 
 def pick_source(rnd, declkind, runner):
@@ -327,8 +328,8 @@ def systematic(acc, zy, rnd, ctx):
             eis = [h.op_env(r, d) for r, d in combo]
             for ei in eis:
                 dk = h.envs[ei][2]
-                src = {"none": "[1, 2].map(x, x + 1)", "simple": "n + 1", "dotted": "a.b", "package": "x + 1", "leaf": "r.kind"}[dk]
-                bk = {"none": "empty", "simple": "plain", "dotted": "dotted", "package": "package", "leaf": "leafdot"}[dk]
+                src = {"none": "[1, 2].map(x, x + 1)", "simple": "n + 1", "dotted": "a.b", "package": "x + 1", "package-bare": "x + 1", "leaf": "r.kind"}[dk]
+                bk = {"none": "empty", "simple": "plain", "dotted": "dotted", "package": "package", "package-bare": "package", "leaf": "leafdot"}[dk]
                 pi = h.op_program(ei, src, False)
                 if pi is not None:
                     h.op_evaluate(pi, dict(BINDINGS[bk][0]))
